@@ -310,7 +310,29 @@ def probe_check(tier, seed, stats):
     return []
 
 
+LIN_MACROS = {"send": 4, "sendt": 2, "sendot": 2, "try": 3, "recv": 4, "recvt": 2, "tryr": 3, "drain": 2, "asend1": 2, "asend2": 2, "asenddrop": 2,
+              "arecv1": 2, "arecv2": 2, "arecvdrop": 2, "stream3": 1, "close": 1, "len": 1, "isfull": 1, "scount": 1, "rcount": 1, "isclosed": 1,
+              "clones": 1, "drops": 1, "dropr": 1, "isdisc": 1}
+LIN_STRATS = ("random", "uniform", "pct:2", "pct:3", "after:unlock:1", "after:unlock:2", "after:st:1", "after:pwrite:1", "after:pread:1", "after:guard:2")
+FLAVOUR_MACROS = dict(MIXED, convs=3, convr=3, clonesx=3, clonerx=3, scount=1, rcount=1)
+
+
+def lin_c03(tier, seed):
+    n = 150 if tier == "quick" else 4000
+    return [(Profile("lin", LIN_MACROS, threads=(2, 3), ops=(1, 2), classes=("w",), n=n, strategies=LIN_STRATS, extra="tickp=30"), 6 if tier == "quick" else 12)]
+
+
 PROPS = {
+    "C03": dict(simple("C03", "proof", lambda tier, seed: fams_c18(tier, seed)[:2], conc_prof("atomic", MIXED, ["mutex", "stuck", "fifo", "capacity"]),
+                       lambda d: True,
+                       "the model is the atomic channel (call = one atomic step; blocking call = register + complete); every state incl. hand-off windows satisfies all invariants; finalize changes only the waiter's own state/wake log; a claimed waiter is invisible to everybody else; one lock acquisition per critical section (extracted); linearizability oracle: outcomes of scheduled runs of small programs must be in the model's outcome set over all interleavings (specexplore)",
+                       extra_files=["Kanal/Tie.lean"]),
+                lin=lin_c03),
+    "C09": simple("C09", "proof", lambda tier, seed: fams_c12(tier, seed)[:2] + fams_c18(tier, seed)[:1],
+                  conc_prof("flavours", FLAVOUR_MACROS, ["stuck", "wake", "fifo", "mutex"]),
+                  lambda d: True,
+                  "flavour does not exist in the model: every invariant is over Reach with arbitrary alternation of sync/async labels; wake path chosen by the waiter's kind; hand-off uniform in the waiter's kind; conversions are the identity; handles are repr(C) one-field wrappers (extracted)",
+                  extra_files=["Kanal/Tie.lean"]),
     "C20": dict(
         level="proof",
         lean_targets=["Kanal.Props.C20", "Kanal.Tie", "traittable"],
